@@ -71,16 +71,12 @@ func (s *scanSpec) rebase(newBase int64) {
 	if d == 0 {
 		return
 	}
-	const window = 20 * 365 * 24 * 3600
 	fix := func(n *v1.Node) {
 		if !n.CreationTimestamp.IsZero() {
 			n.CreationTimestamp = metav1.NewTime(n.CreationTimestamp.Add(time.Duration(d) * time.Second))
 		}
 		for i := range n.Spec.Taints {
-			if v, err := strconv.ParseInt(n.Spec.Taints[i].Value, 10, 64); err == nil && v > s.BaseSec-window && v < s.BaseSec+window &&
-				strconv.FormatInt(v, 10) == n.Spec.Taints[i].Value {
-				n.Spec.Taints[i].Value = strconv.FormatInt(v+d, 10)
-			}
+			n.Spec.Taints[i].Value = shiftTaintValue(n.Spec.Taints[i].Value, d, s.BaseSec)
 		}
 	}
 	for _, n := range s.Nodes {
@@ -105,6 +101,7 @@ type K8sCall struct {
 	Name    string
 	OK      bool
 	Payload *v1.Node
+	Added   bool // update: the payload carries more taints than the stored copy (a taint was appended)
 }
 
 type Journal struct {
@@ -121,12 +118,16 @@ func (j *Journal) add(e JEntry) {
 // ---------- listers ----------
 
 type snapPodLister struct {
-	pods []*v1.Pod
-	j    *Journal
+	pods   []*v1.Pod
+	j      *Journal
+	onList func() // called at the start of every node group's scan
 }
 
 func (l *snapPodLister) List(sel labels.Selector) ([]*v1.Pod, error) {
 	l.j.add(JEntry{Marker: true})
+	if l.onList != nil {
+		l.onList()
+	}
 	return append([]*v1.Pod(nil), l.pods...), nil
 }
 func (l *snapPodLister) Pods(ns string) v1lister.PodNamespaceLister { return nil }
@@ -179,9 +180,10 @@ func (a *apiSim) react(action k8stesting.Action) (bool, runtime.Object, error) {
 		act := action.(k8stesting.UpdateAction)
 		obj := act.GetObject().(*v1.Node)
 		name := obj.Name
-		_, ok := a.store[name]
+		old, ok := a.store[name]
 		fail := a.update[name] || !ok
-		a.j.add(JEntry{K8s: &K8sCall{Verb: "update", Name: name, OK: !fail, Payload: obj.DeepCopy()}})
+		added := !ok || len(obj.Spec.Taints) > len(old.Spec.Taints)
+		a.j.add(JEntry{K8s: &K8sCall{Verb: "update", Name: name, OK: !fail, Payload: obj.DeepCopy(), Added: added}})
 		if fail {
 			return true, nil, errInjected
 		}
@@ -261,13 +263,40 @@ func newWorld(s *scanSpec) (*world, error) {
 	w.api = newAPISim(apiNodes, w.j)
 	w.sim = NewAwsSim(s.Cloud)
 	w.sim.journalSink = w.j
+	w.pods = &snapPodLister{pods: s.Pods, j: w.j}
+	w.nodes = &snapNodeLister{nodes: s.Nodes}
+	// the simulated AWS attributes calls about instances it does not know to the group being scanned
+	w.pods.onList = func() {
+		w.sim.mu.Lock()
+		w.sim.curIdx++
+		w.sim.mu.Unlock()
+	}
+	w.sim.curGroup = func() string {
+		i := w.sim.curIdx - 1
+		if i >= 0 && i < len(w.spec.Groups) {
+			return w.spec.Groups[i].Opts.CloudProviderGroupName
+		}
+		return ""
+	}
+	if err := w.build(); err != nil {
+		return nil, err
+	}
+	return w, nil
+}
+
+// build constructs a fresh cloud provider and a fresh Controller over the world's services (also: a restart).
+func (w *world) build() error {
+	s := w.spec
 	configs := []cloudprovider.NodeGroupConfig{}
 	opts := []controller.NodeGroupOptions{}
+	w.sim.mu.Lock()
+	cloud := w.sim.snapshotGroups()
+	w.sim.mu.Unlock()
 	for i := range s.Groups {
 		g := &s.Groups[i]
 		o := g.Aws
 		w.sim.oracle[g.Opts.CloudProviderGroupName] = &o
-		for _, a := range s.Cloud {
+		for _, a := range cloud {
 			if a.Name == g.Opts.CloudProviderGroupName {
 				c := groupConfig(a, o)
 				c.Name = g.Opts.Name
@@ -278,21 +307,19 @@ func newWorld(s *scanSpec) (*world, error) {
 	}
 	prov, err := awsprov.VerifNewCloudProvider(simAutoscaling{s: w.sim}, simEC2{s: w.sim}, configs...)
 	if err != nil {
-		return nil, err
+		return err
 	}
 	w.prov = prov
 	cs := fake.NewSimpleClientset()
 	cs.PrependReactor("*", "nodes", w.api.react)
-	w.pods = &snapPodLister{pods: s.Pods, j: w.j}
-	w.nodes = &snapNodeLister{nodes: s.Nodes}
 	copts := controller.Opts{K8SClient: cs, NodeGroups: opts, DryMode: s.GlobalDry, ScanInterval: time.Minute,
 		CloudProviderBuilder: simBuilder{build: func() (cloudprovider.CloudProvider, error) { return prov, nil }}}
 	ctl, err := controller.VerifNewController(copts, prov, w.pods, w.nodes)
 	if err != nil {
-		return nil, err
+		return err
 	}
 	w.ctl = ctl
-	return w, nil
+	return nil
 }
 
 // setOracles installs the per-group API failure oracles (union over groups: node names are unique per case).
@@ -362,6 +389,7 @@ func (w *world) scanOnce(setState bool) scanObs {
 	w.sim.ResetCounters()
 	w.sim.record = true
 	w.sim.describeAsRefresh = 1
+	w.sim.curIdx = 0
 	w.sim.mu.Unlock()
 	obs.Start = time.Now()
 	func() {
@@ -497,7 +525,9 @@ func (in *Interner) ccall(e JEntry, nowSec int64, preTaintCount map[string]int) 
 		return fmt.Sprintf("(CK (KGet %s %s))", cz(in.ID(k.Name)), cbool(k.OK))
 	case "update":
 		p := k.Payload.DeepCopy()
-		canonTaintStamp(p, nowSec)
+		if k.Added { // only a freshly appended stamp reads the real clock
+			canonTaintStamp(p, nowSec)
+		}
 		return fmt.Sprintf("(CK (KUpdate %s %s %s))", cz(in.ID(k.Name)), in.cnode(p), cbool(k.OK))
 	case "delete":
 		return fmt.Sprintf("(CK (KDelete %s %s))", cz(in.ID(k.Name)), cbool(k.OK))
